@@ -36,13 +36,13 @@ ASSUMPTIONS = ["user functions deterministic", "zarr storages out of scope (cann
 
 
 def registry():
-    from contracts import run
-    allc = cs.ALL + cm.ALL + run.ALL
+    from contracts import map_run, run
+    allc = cs.ALL + cm.ALL + run.ALL + map_run.ALL
     return {**{c.short: c for c in allc}, **{c.name: c for c in allc}}
 
 
 def proof_items():
-    from contracts import run
+    from contracts import map_run, run
     from props.C07 import _call_nk, _nk_gen
     from props.C08 import _okey_gen
     return [
@@ -56,6 +56,10 @@ def proof_items():
         ProofItem(cm.mapspec_input_keys, gen=_okey_gen),
         ProofItem(cm.mapspec_output_key, gen=_okey_gen),
         ProofItem(run.update_array, gen=run.gen),
+        # what each parameter of a function receives in a map: bound value, else given input, else upstream output read
+        # from the store, else default; and how one result is split over the function's output names
+        ProofItem(map_run.func_kwargs, gen=map_run.fk_gen),
+        ProofItem(map_run.pick_output, gen=map_run.po_gen),
     ]
 
 
